@@ -514,8 +514,10 @@ impl Pager {
             // [MemPage::dealloc] consumes itself and creates a new MemPage with an overflow header.
             let deallocated_page = mem_page.dealloc();
 
-            // Here the write needs to write as an overflow page , regardless of the value of [P]
-            deallocated_page.with_bytes(|bytes| self.write_block(id, bytes, page_size))?;
+            // The freed page reaches the disk like any other dirty page (eviction or checkpoint).
+            // Writing it here, ahead of the log, would put a page of an unfinished, unlogged change
+            // into the file that recovery starts from.
+            deallocated_page.mark_dirty();
             self.cache_frame(deallocated_page)?;
         };
 
